@@ -60,8 +60,13 @@ def run(prop, tier, verdict):
     exhaustive = True
     if tier != 'thorough':
         rnd = random.Random(seedv)
-        long_ = [s for s in scen if len(s['steps']) >= 3]
-        scen = [s for s in scen if len(s['steps']) < 3] + rnd.sample(long_, min(700, len(long_)))
+        # always: short histories and every transition taken while a Close / SetID is blocked behind a
+        # running handler (the non-quiescent part of the graph); plus a seeded sample of the rest
+        def blocked_before_last(s):
+            return len(s['steps']) >= 2 and not s['steps'][-2]['quiet']
+        keep = [s for s in scen if len(s['steps']) < 3 or blocked_before_last(s)]
+        rest = [s for s in scen if not (len(s['steps']) < 3 or blocked_before_last(s))]
+        scen = keep + rnd.sample(rest, min(500, len(rest)))
         exhaustive = False
     for i, s in enumerate(scen):
         s['id'] = 'hub%d' % i
